@@ -41,7 +41,7 @@ class LivelockAbort(BaseException):
 
 class World:
     def __init__(self, prog, nroots, nflags=2, nlocks=2, max_turns=5000, nqueues=2, nchans=2,
-                 nres=2, resinit=2, reskind='res'):
+                 nres=2, resinit=2, reskind='res', horizon=float('inf')):
         # prog: list of op lists, index a-1
         self.prog = prog
         self.nroots = nroots
@@ -54,6 +54,7 @@ class World:
         self.stream_id.update({id(c): ('ch', i) for i, c in self.chans.items()})
         self.iters = {}       # (activity, channel) -> async iterator of a consumer
         self.ticks = {}       # ticker key -> date of its last tick
+        self.horizon = horizon  # largest date of the model configuration being replayed
         self.pipe = None
         mk = Resources if reskind == 'res' else Capacities
         self.pools = {i + 1: mk(a=resinit) for i in range(nres)}   # pool id -> supply / open share
@@ -145,6 +146,7 @@ class Puppet:
         self.i = 0
         self.scope_stack = []  # ids of the scope blocks this activity has open (innermost last)
         self.fin = 'none'     # clean-up behaviour when closed
+        self.graced = False
         self.scope = 0        # scope this task was spawned into
 
     def emit(self, e, **kw):
@@ -163,10 +165,24 @@ class Puppet:
 
     async def main(self):
         try:
-            await self.block()
+            try:
+                await self.block()
+            except CancelTask as err:
+                if self.fin != 'grace' or self.graced or time.now + 1 > self.w.horizon:
+                    raise
+                # graceful shutdown: catch the first cancellation, take one time unit, then re-raise it
+                self.graced = True
+                self.emit('g')
+                try:
+                    await (time + 1)
+                except BaseException as err2:
+                    self.emit('u', op='grace', exc=self.w.enc(err2))
+                    raise
+                self.emit('r', op='grace')
+                raise err
         except BaseException as err:
             self.emit('end', how=how(err), exc=self.w.enc(err))
-            if isinstance(err, GeneratorExit) and self.fin != 'none':
+            if isinstance(err, GeneratorExit) and self.fin in ('raise', 'spawn'):
                 self.on_close()
             raise
         else:
@@ -628,6 +644,12 @@ class Puppet:
         w.scopes[s] = scope
         w.scope_id[id(scope)] = s
         args = {key: op[key] for key in ('kind', 'd', 'f', 'c', 'catch') if key in op}
+        if kind == 'until_c' and op['c'][0] in ('ge', 'eq'):
+            now_, date = time.now, op['c'][1]
+            if op['c'][0] == 'eq' and now_ > date:
+                args['never'] = True
+            else:
+                args['due'] = max(now_, date)
         self.emit('b', op='open', s=s, **args)
         phase = 'enter'
         try:
@@ -669,10 +691,10 @@ def install_livelock_guard():
 
 
 def run_program(prog, nroots, nflags=2, nlocks=2, start=0, nqueues=2, nchans=2, nres=2, resinit=2, reskind='res',
-                pipe=None, head=None):
+                pipe=None, head=None, horizon=float('inf')):
     """execute one program on the real usim; returns (events, outcome)"""
     world = World(prog, nroots, nflags, nlocks, nqueues=nqueues, nchans=nchans, nres=nres, resinit=resinit,
-                  reskind=reskind)
+                  reskind=reskind, horizon=horizon)
     if pipe is not None:
         world.pipe = UnboundedPipe() if pipe == 0 else Pipe(throughput=pipe)
     if head is not None:
